@@ -640,7 +640,61 @@ func (w *routeWorld) setup(h int) error {
 
 // ---------------------------------------------------------------- the suite
 
+// partialFillScenario: a pool whose only position reaches down to the extreme tick, and a swap larger than the pool can take:
+// the swap loop stops at the price limit with part of the stated amount left over.  The message must either move exactly the
+// stated amount or fail (C03-P1, fixed by 6584aed: it used to succeed with a partial fill).  Oracle only, own chain.
+func partialFillScenario(e *Env) {
+	c, err := sim.New(sim.DefaultConfig())
+	if err != nil {
+		e.Note("partial-fill scenario: setup error %v", err)
+		return
+	}
+	lp, tr := c.Accs[0].Addr.String(), c.Accs[1].Addr
+	resp, err, pn := c.Exec(&lptypes.MsgCreatePool{Authority: lp, DenomBase: "uaaa", DenomQuote: "ubbb", FeeRate: "0.003", PriceRatio: "10", BaseOffset: "0.5"})
+	if err != nil || pn != nil {
+		e.Note("partial-fill scenario: create pool %v %v", err, pn)
+		return
+	}
+	id := resp.(*lptypes.MsgCreatePoolResponse).Id
+	if _, err, pn = c.Exec(&lptypes.MsgCreatePosition{Sender: lp, PoolId: id, LowerTick: lptypes.TICK_MIN, UpperTick: 2,
+		TokenBase: sdk.NewInt64Coin("uaaa", 1000), TokenQuote: sdk.NewInt64Coin("ubbb", 1000), MinAmountBase: sdkmath.ZeroInt(), MinAmountQuote: sdkmath.ZeroInt()}); err != nil || pn != nil {
+		e.Note("partial-fill scenario: create position %v %v", err, pn)
+		return
+	}
+	e.Stat("scenario.partial_fill_at_price_limit")
+	big, _ := sdkmath.NewIntFromString("10000000000000000000000000")
+	for _, amt := range []sdkmath.Int{big, sdkmath.NewInt(5000)} {
+		a0, b0 := c.Bal(tr, "uaaa"), c.Bal(tr, "ubbb")
+		r, err, pn := c.Exec(&swaptypes.MsgSwapExactAmountIn{Sender: tr.String(), Route: poolRoute("uaaa", "ubbb", id), AmountIn: amt, MinAmountOut: sdkmath.OneInt()})
+		deb, cred := a0.Sub(c.Bal(tr, "uaaa")), c.Bal(tr, "ubbb").Sub(b0)
+		e.Oracle("no_panic", pn == nil, "scenario=partial_fill_at_price_limit swapIn %s: %v", amt, pn)
+		if err == nil && pn == nil {
+			rr := r.(*swaptypes.MsgSwapExactAmountInResponse)
+			e.Oracle("in_debit_exact", deb.Equal(amt), "scenario=partial_fill_at_price_limit swapIn stated=%s debited=%s credited=%s", amt, deb, cred)
+			e.Oracle("response_eq_moved", rr.Result.TokenIn.Amount.Equal(deb) && rr.AmountOut.Equal(cred), "scenario=partial_fill_at_price_limit swapIn response in=%s out=%s moved in=%s out=%s", rr.Result.TokenIn.Amount, rr.AmountOut, deb, cred)
+			e.Stat("scenario.partial_fill.swapIn.ok")
+		} else {
+			e.Oracle("in_debit_exact", deb.IsZero() && cred.IsZero(), "scenario=partial_fill_at_price_limit failed swapIn moved %s/%s", deb, cred)
+			e.Stat("scenario.partial_fill.swapIn.err")
+		}
+	}
+	for _, amt := range []sdkmath.Int{sdkmath.NewInt(2000), sdkmath.NewInt(100)} {
+		a0, b0 := c.Bal(tr, "uaaa"), c.Bal(tr, "ubbb")
+		_, err, pn := c.Exec(&swaptypes.MsgSwapExactAmountOut{Sender: tr.String(), Route: poolRoute("uaaa", "ubbb", id), MaxAmountIn: big, AmountOut: amt})
+		deb, cred := a0.Sub(c.Bal(tr, "uaaa")), c.Bal(tr, "ubbb").Sub(b0)
+		e.Oracle("no_panic", pn == nil, "scenario=partial_fill_at_price_limit swapOut %s: %v", amt, pn)
+		if err == nil && pn == nil {
+			e.Oracle("out_credit_exact", cred.Equal(amt), "scenario=partial_fill_at_price_limit swapOut stated=%s credited=%s debited=%s", amt, cred, deb)
+			e.Stat("scenario.partial_fill.swapOut.ok")
+		} else {
+			e.Oracle("out_credit_exact", deb.IsZero() && cred.IsZero(), "scenario=partial_fill_at_price_limit failed swapOut moved %s/%s", deb, cred)
+			e.Stat("scenario.partial_fill.swapOut.err")
+		}
+	}
+}
+
 func suiteRoute(e *Env) {
+	partialFillScenario(e)
 	w := &routeWorld{e: e}
 	for h := 0; h < e.N; h++ {
 		if err := w.setup(h); err != nil {
